@@ -115,12 +115,10 @@ def r2_normaliser(ctx, res):
     if dn is None or an is None or dn != an or dn != ('obj', 'wn._util', 'normalize_form'):
         res.find(key, core.loc(wi.node), f'the default normalizer of Wordnet ({dn}) is not the function that fills forms.normalized_form at add '
                                          f'time ({an}): the normalized column and the normalized query no longer meet')
-    nf = ctx.repo.func('_util', 'normalize_form')
-    key = 'normalize_form-definition'
-    rets = [norm(r.value) for r in walk_no_nested(nf.node) if isinstance(r, ast.Return)]
-    res.inst(key, nf.module.loc(nf.node), f'{rets}')
-    if rets != ["''.join((c for c in normalize('NFKD', s.lower()) if not combining(c)))"]:
-        res.find(key, nf.module.loc(nf.node), f'normalize_form is no longer lower-casing + NFKD + dropping combining marks: {rets}')
+    from ..speccheck import view, expect
+    expect(res, 'normalize_form-definition', view(ctx, '_util', 'normalize_form'),
+           [('return', "''.join((_1 for _1 in normalize('NFKD', s.lower()) if not combining(_1)))")],
+           'normalize_form is lower-casing + NFKD decomposition + dropping combining marks')
     from .c01 import computed_bindings
     b = computed_bindings(ctx)
     key = 'normalized-column'
@@ -135,58 +133,98 @@ def r2_normaliser(ctx, res):
         res.find(key + ':sites', 'wn/_add.py', f'expected the lemma and the further forms to write normalized_form, found {len(alts)} bindings')
 
 
+_LEM = 'w.lemmatizer(form, pos) if w.lemmatizer else {}'
+_ITEMS = f'for ({{pos: {{form}}}} if not ({_LEM}) else {_LEM}).items()'
+_ENT = r'^#(\d+)\.append\(cls\(\*\$2, _wordnet=w\)\)$'
+
+
 def r3_backoff(ctx, res):
-    f = ctx.repo.func('_core', '_find_helper')
-    src = Frag(f.node)
-    loc = f.module.loc(f.node)
+    """_find_helper on its effect summary: which query rounds are made, over what, under which conditions"""
+    from ..speccheck import view
+    v = view(ctx, '_core', '_find_helper')
+    loc = v.loc()
 
     def chk(key, ok, msg):
-        res.inst(key, loc, 'anchor')
+        res.inst(key, loc, 'summary')
         if not ok:
             res.find(key, loc, msg)
-    chk('lemmatize-or-empty', 'forms = lemmatize(form, pos) if lemmatize else {}' in src,
-        '_find_helper no longer takes the candidate forms from the lemmatizer (or nothing without one)')
-    ifs = [n for n in walk_no_nested(f.node) if isinstance(n, ast.If)]
-    chk('fallback-to-query', any(norm(i.test) == 'not forms' and [norm(s) for s in i.body] == ['forms = {pos: {form}}'] for i in ifs),
+    kw = [e for e in v.E if e.kind == 'new' and 'lexicon_rowids' in e.text]
+    kws = kw[0].text if kw else ''
+    chk('kwargs', len(kw) == 1 and kws.endswith("<{'lexicon_rowids': w._lexicon_ids, 'search_all_forms': w._search_all_forms}>"),
+        f'_find_helper builds its query arguments as {kws}; expected the lexicon scope and search_all_forms of the Wordnet')
+    K = kws.split('<')[0] if kws else '#?'
+    chk('ili-forwarded', bool(v.find('store', f"{K}['ili'] = ili", ('ili is not None',))), 'the ili argument is no longer forwarded to the query')
+    chk('normalized-flag', bool(v.find('store', f"{K}['normalized'] = bool(w._normalizer)", ('form is not None',))),
+        "_find_helper no longer searches the normalized column exactly when a normalizer is set (normalized = bool(normalizer))")
+    easy = v.find('call', text_re=r'^#\d+\.append\(cls\(\*\$1, _wordnet=w\)\)$', guards=('form is None',), ctx=(f'for query_func(pos=pos, **{K})',))
+    chk('no-form-easy-case', len(easy) == 1 and bool(v.find('return', easy[0][1].split('.')[0], ('form is None',))),
+        '_find_helper no longer returns all entities of the part of speech (in scope) when no form is given')
+    import re as _re
+    rounds = [r for r in v.rows if r[0] == 'call' and _re.match(_ENT, r[1]) and len(r[3]) == 2]
+    first = [r for r in rounds if r[3] == (_ITEMS, f'for query_func(forms=$1[1], pos=$1[0], **{K})')]
+    chk('lemmatize-or-empty', all(r[3][0] == _ITEMS for r in rounds) and bool(rounds),
+        f'_find_helper no longer takes the candidate (pos, forms) items from the lemmatizer, falling back to {{pos: {{form}}}} exactly when it '
+        f'proposes nothing: rounds iterate {sorted({r[3][0] for r in rounds})}')
+    chk('fallback-to-query', all(r[3][0] == _ITEMS for r in rounds) and bool(rounds),
         '_find_helper no longer falls back to the query form itself exactly when the lemmatizer proposes nothing')
-    chk('normalized-flag', "kwargs['normalized'] = bool(normalize)" in src,
-        "_find_helper no longer searches the normalized column exactly when a normalizer is set (kwargs['normalized'] = bool(normalize))")
-    second = [i for i in ifs if norm(i.test) == 'not results and normalize']
-    chk('backoff-conditional', len(second) == 1,
-        'the second search round (normalized query) is no longer control-dependent on `not results and normalize`')
-    comps = [n for n in walk_no_nested(f.node) if isinstance(n, ast.ListComp) and len(n.generators) == 2]
-    rounds = [c for c in comps if norm(c.generators[0].iter) == 'forms.items()']
-    chk('both-rounds-same-items', len(rounds) == 2 and all(norm(c.generators[0].target) == '(_pos, _forms)' for c in rounds),
+    chk('first-round-call', len(first) == 1 and first[0][2] == frozenset({'form is not None'}),
+        f'first round no longer calls query_func(forms=<forms of the item>, pos=<pos of the item>, **kwargs) for every item: '
+        f'{[(r[3][1], sorted(r[2])) for r in rounds]}')
+    R1 = first[0][1].split('.')[0] if first else '#?'
+    second = [r for r in rounds if r not in first]
+    norm_forms = ('[w._normalizer(_1) for _1 in $1[1]]',)
+    ok2 = False
+    if len(second) == 1:
+        q = second[0][3][1]
+        m = _re.match(r'^for query_func\(forms=(.+), pos=\$1\[0\], \*\*' + _re.escape(K) + r'\)$', q)
+        if m:
+            fexpr = m.group(1)
+            if fexpr in norm_forms:
+                ok2 = True
+            else:
+                # a list built just before: #n with appends of w._normalizer($2) over $1[1]
+                m2 = _re.match(r'^(#\d+)( if w\._normalizer is not None else \$1\[1\])?$', fexpr)
+                if m2:
+                    ap = v.find('call', f'{m2.group(1)}.append(w._normalizer($2))', ctx=(_ITEMS, 'for $1[1]'))
+                    ok2 = bool(ap)
+    chk('second-round-call', ok2, f'second round no longer searches the normalized query forms with the same pos: '
+                                  f'{[r[3][1] for r in second]}')
+    chk('both-rounds-same-items', len(second) == 1 and second[0][3][0] == _ITEMS,
         'the two search rounds no longer range over the same (pos, forms) items of the lemmatizer result')
-    calls = [norm(c.generators[1].iter) for c in rounds]
-    chk('first-round-call', any(c == 'query_func(forms=_forms, pos=_pos, **kwargs)' for c in calls),
-        f'first round no longer calls query_func(forms=_forms, pos=_pos, **kwargs): {calls}')
-    chk('second-round-call', any(c == 'query_func(forms=[normalize(f) for f in _forms], pos=_pos, **kwargs)' for c in calls),
-        f'second round no longer searches the normalized query forms with the same pos: {calls}')
-    if second:
-        inside = any(any(x is r for x in ast.walk(second[0])) for r in rounds)
-        chk('second-round-inside-if', inside, 'the normalized round is not inside the `not results and normalize` branch')
-    chk('no-form-easy-case', any(norm(i.test) == 'form is None' and i.body and isinstance(i.body[-1], ast.Return) for i in ifs)
-        and 'query_func(pos=pos, **kwargs)' in src,
-        '_find_helper no longer returns all entities of the part of speech when no form is given')
-    kw = None
-    for n in walk_no_nested(f.node):
-        if isinstance(n, ast.AnnAssign) and norm(n.target) == 'kwargs' and isinstance(n.value, ast.Dict):
-            kw = {k.value: norm(v) for k, v in zip(n.value.keys, n.value.values)}
-    chk('kwargs', kw == {'lexicon_rowids': 'w._lexicon_ids', 'search_all_forms': 'w._search_all_forms'},
-        f'_find_helper builds its query arguments as {kw}')
+    want = {'form is not None', f'not {R1}', 'w._normalizer'}
+    chk('backoff-conditional', len(second) == 1 and set(second[0][2]) == want,
+        f'the second search round (normalized query) must run exactly when the first found nothing and a normalizer is set; it runs when '
+        f'{[sorted(r[2]) for r in second]}')
+    chk('second-round-inside-if', len(second) == 1, 'expected exactly one normalized round')
 
 
 def r4_dedupe(ctx, res):
-    f = ctx.repo.func('_core', '_find_helper')
-    src = Frag(f.node)
+    from ..speccheck import view
+    import re as _re
+    v = view(ctx, '_core', '_find_helper')
+    f = v.f
     key = 'dedupe-order-preserving'
-    res.inst(key, f.module.loc(f.node), 'seen set + list append')
-    loops = [n for n in walk_no_nested(f.node) if isinstance(n, ast.For) and norm(n.iter) == 'results']
-    ok = len(loops) == 1 and 'if result not in seen' in norm(loops[0]) and 'unique_results.append(result)' in norm(loops[0]) \
-        and 'seen.add(result)' in norm(loops[0]) and 'return unique_results' in src
+    res.inst(key, v.loc(), 'order-preserving de-duplication of the collected entities')
+    rets = [r for r in v.rows if r[0] == 'return' and 'form is not None' in r[2]]
+    ok = bool(rets)
+    for r in rets:
+        if _re.match(r'^unique_list\(#\d+\)$', r[1]):
+            continue
+        m = _re.match(r'^(#\d+)$', r[1])
+        good = False
+        if m:
+            out = m.group(1)
+            ap = [x for x in v.rows if x[0] == 'call' and x[1] == f'{out}.append($1)']
+            if len(ap) == 1 and len(ap[0][3]) == 1:
+                g = [y for y in ap[0][2] if y.startswith('$1 not in #')]
+                if len(g) == 1:
+                    seen = g[0].split(' not in ')[1]
+                    good = bool(v.find('call', f'{seen}.add($1)', (g[0],), ap[0][3])) \
+                        and any(e.kind == 'new' and e.text.startswith(seen + '<set()') for e in v.E)
+        ok = ok and good
     if not ok:
-        res.find(key, f.module.loc(f.node), '_find_helper no longer de-duplicates its results in first-occurrence order')
+        res.find(key, v.loc(), f'_find_helper no longer de-duplicates its results in first-occurrence order (returns '
+                               f'{[r[1] for r in rets]})')
     from .c13 import ont_subset
     from ..runtime import Result
     tmp = Result('tmp')
